@@ -7,7 +7,7 @@ use crate::sym::*;
 use crate::util::*;
 use apache_avro::schema::{EnumSchema, FixedSchema, Schema, UnionSchema, ArraySchema, MapSchema, RecordSchema, RecordField};
 use apache_avro::types::Value;
-use std::collections::BTreeMap;
+use apache_avro::vmap::BTreeMap;
 
 fn conforms(v: &Value, schema: &Schema, names: &Names) -> bool {
     // the library's own validation relation is the conformance oracle prescribed by C06
@@ -115,15 +115,23 @@ macro_rules! dec_varint_harness {
 
 dec_varint_harness!(long_full, 10, 12, false, 1, |k| Schema::Long, |v, _k| match &v { Value::Long(x) => Some(*x), _ => None });
 dec_varint_harness!(int_full, 10, 12, true, 1, |k| Schema::Int, |v, _k| match &v { Value::Int(x) => Some(*x as i64), _ => None });
-dec_varint_harness!(long_kinds, 3, 5, false, 7, |k| match k {
-        0 => Schema::TimeMicros,
-        1 => Schema::TimestampMillis,
-        2 => Schema::TimestampMicros,
-        3 => Schema::TimestampNanos,
-        4 => Schema::LocalTimestampMillis,
-        5 => Schema::LocalTimestampMicros,
-        _ => Schema::LocalTimestampNanos,
-    }, |v, k| match (&v, k) {
+/// the 9 logical kinds that are read as a plain int/long: each arm must hand the varint value to
+/// its own Value variant.  Kinds are concrete (one unrolled iteration each), input symbolic.
+fn logical_kind(k: u8) -> (Schema, bool) {
+    match k {
+        0 => (Schema::TimeMicros, false),
+        1 => (Schema::TimestampMillis, false),
+        2 => (Schema::TimestampMicros, false),
+        3 => (Schema::TimestampNanos, false),
+        4 => (Schema::LocalTimestampMillis, false),
+        5 => (Schema::LocalTimestampMicros, false),
+        6 => (Schema::LocalTimestampNanos, false),
+        7 => (Schema::Date, true),
+        _ => (Schema::TimeMillis, true),
+    }
+}
+fn logical_payload(v: &Value, k: u8) -> Option<i64> {
+    match (v, k) {
         (Value::TimeMicros(x), 0) => Some(*x),
         (Value::TimestampMillis(x), 1) => Some(*x),
         (Value::TimestampMicros(x), 2) => Some(*x),
@@ -131,14 +139,46 @@ dec_varint_harness!(long_kinds, 3, 5, false, 7, |k| match k {
         (Value::LocalTimestampMillis(x), 4) => Some(*x),
         (Value::LocalTimestampMicros(x), 5) => Some(*x),
         (Value::LocalTimestampNanos(x), 6) => Some(*x),
+        (Value::Date(x), 7) => Some(*x as i64),
+        (Value::TimeMillis(x), 8) => Some(*x as i64),
         _ => None,
-    });
-dec_varint_harness!(int_kinds, 3, 5, true, 2, |k| match k { 0 => Schema::Date, _ => Schema::TimeMillis },
-    |v, k| match (&v, k) {
-        (Value::Date(x), 0) => Some(*x as i64),
-        (Value::TimeMillis(x), 1) => Some(*x as i64),
-        _ => None,
-    });
+    }
+}
+
+harness!(
+    /// 9 int/long-backed logical kinds x all byte strings of length <= 2
+    logical_kinds, unwind = 10, {
+    let data: [u8; 2] = any_bytes();
+    let len = any_usize();
+    assume(len <= 2);
+    let names = no_names();
+    let mut d10 = [0u8; 10];
+    d10[0] = data[0];
+    d10[1] = data[1];
+    let want = spec::dec_long(&d10, len);
+    witness!(matches!(want, Some((_, 2))), "two-byte varint");
+    let mut k = 0u8;
+    while k < 9 {
+        let (schema, _is32) = logical_kind(k);
+        match (run_dec(&schema, &names, data, len), want) {
+            (Some((v, used)), Some((w, wused))) => {
+                assert!(logical_payload(&v, k) == Some(w), "logical kind decoded to the wrong variant or number");
+                assert!(used == wused, "consumed differs");
+                assert!(conforms(&v, &schema, &names), "decoded value does not validate");
+                leak(v);
+            }
+            (Some((v, _)), None) => {
+                leak(v);
+                assert!(false, "Ok for an incomplete datum");
+            }
+            (None, Some(_)) => assert!(false, "complete datum rejected"),
+            (None, None) => {}
+        }
+        leak(schema);
+        k += 1;
+    }
+    leak(names);
+});
 
 harness!(
     /// float = 4 bytes LE IEEE-754, double = 8 bytes LE; bit patterns preserved (NaN payloads, -0).
@@ -173,107 +213,85 @@ harness!(
     leak(names);
 });
 
-/// reference: bytes/string datum = long length L >= 0, then L bytes.
-fn spec_bytes(d: &[u8; 6], len: usize, limit: usize) -> Option<(usize, usize)> {
-    // returns (payload offset, payload length)
-    let mut d10 = [0u8; 10];
-    let mut i = 0;
-    while i < 6 {
-        d10[i] = d[i];
-        i += 1;
-    }
-    match spec::dec_long(&d10, len) {
-        Some((l, used)) => {
-            if l < 0 || (l as u64) > limit as u64 {
-                return None;
+/// bytes / string with a concrete declared length L (canonical one-byte prefix) and a concrete
+/// cut LEN; the payload is symbolic.
+fn bytes_case<const L: usize, const LEN: usize>(p: [u8; 3], names: &Names) {
+    let data = [(L as u8) << 1, p[0], p[1], p[2]];
+    let sb = Schema::Bytes;
+    let complete = LEN >= 1 + L;
+    match run_dec_min(&sb, names, data, LEN, LEN) {
+        Some((v, used)) => {
+            assert!(complete, "bytes: Ok for a truncated datum");
+            match &v {
+                Value::Bytes(b) => assert!(b.len() == L && slice_eq(b, &p, L), "bytes payload differs"),
+                _ => assert!(false, "bytes schema decoded to another variant"),
             }
-            let l = l as usize;
-            if len - used < l {
-                return None;
-            }
-            Some((used, l))
+            assert!(used == 1 + L, "bytes: consumed != prefix + payload");
+            leak(v);
         }
-        None => None,
+        None => assert!(!complete, "complete bytes datum rejected"),
     }
+    leak(sb);
+}
+fn string_case<const L: usize, const LEN: usize>(p: [u8; 3], names: &Names) {
+    let data = [(L as u8) << 1, p[0], p[1], p[2]];
+    let ss = Schema::String;
+    let complete = LEN >= 1 + L;
+    let valid = spec::utf8_valid(&p, L);
+    match run_dec_min(&ss, names, data, LEN, LEN) {
+        Some((v, used)) => {
+            assert!(complete && valid, "string: Ok for a truncated or ill-formed datum");
+            match &v {
+                Value::String(st) => assert!(st.len() == L && slice_eq(st.as_bytes(), &p, L), "string payload differs"),
+                _ => assert!(false, "string schema decoded to another variant"),
+            }
+            assert!(used == 1 + L, "string: consumed != prefix + payload");
+            leak(v);
+        }
+        None => assert!(!(complete && valid), "complete well-formed string datum rejected"),
+    }
+    leak(ss);
 }
 
 harness!(
-    /// bytes: length prefix + payload, for every <= 6-byte input and allocation limit 4.
+    /// bytes: declared length 0..=3 x every cut (all concrete), all payloads.
+    /// (Non-canonical / negative / over-limit prefixes: see `guards::decode_len_`.)
     bytes_, unwind = 8, {
-    set_limit(4);
-    let data: [u8; 6] = any_bytes();
-    let len = any_usize();
-    assume(len <= 6);
+    set_limit(16);
+    let p: [u8; 3] = any_bytes();
     let names = no_names();
-    let schema = Schema::Bytes;
-    let want = spec_bytes(&data, len, 4);
-    let got = run_dec(&schema, &names, data, len);
-    witness!(matches!(want, Some((_, 3))), "3-byte payload");
-    witness!(matches!(want, Some((_, 0))), "empty payload");
-    match (got, want) {
-        (Some((v, used)), Some((off, l))) => {
-            match &v {
-                Value::Bytes(b) => {
-                    assert!(b.len() == l, "payload length differs");
-                    assert!(slice_eq(b, &data[off..], l), "payload differs");
-                }
-                _ => assert!(false, "bytes schema decoded to another variant"),
-            }
-            assert!(used == off + l, "consumed != prefix + payload");
-            assert!(conforms(&v, &schema, &names), "decoded value does not validate");
-            leak(v);
-        }
-        (Some((v, _)), None) => {
-            leak(v);
-            assert!(false, "Ok for a byte string that is not a complete bytes datum (or beyond the limit)");
-        }
-        (None, Some(_)) => assert!(false, "complete bytes datum within the limit rejected"),
-        (None, None) => {}
-    }
-    leak(schema);
+    bytes_case::<0, 0>(p, &names);
+    bytes_case::<0, 1>(p, &names);
+    bytes_case::<1, 1>(p, &names);
+    bytes_case::<1, 2>(p, &names);
+    bytes_case::<2, 2>(p, &names);
+    bytes_case::<2, 3>(p, &names);
+    bytes_case::<3, 1>(p, &names);
+    bytes_case::<3, 3>(p, &names);
+    bytes_case::<3, 4>(p, &names);
+    witness!(p[0] == 0xff && p[2] == 0, "arbitrary payload");
     leak(names);
 });
 
-harness!(
-    /// string: as bytes, plus the payload must be well-formed UTF-8.
-    string_, unwind = 8, {
-    set_limit(4);
-    let data: [u8; 6] = any_bytes();
-    let len = any_usize();
-    assume(len <= 6);
-    let names = no_names();
-    let schema = Schema::String;
-    let want = match spec_bytes(&data, len, 4) {
-        Some((off, l)) => {
-            if spec::utf8_valid(&data[off..], l) { Some((off, l)) } else { None }
-        }
-        None => None,
+macro_rules! string_harness {
+    ($name:ident, $l:literal, $cut:literal) => {
+        harness!(
+            /// string of one declared length: complete and cut one byte short; the payload must be
+            /// well-formed UTF-8 (reference predicate from the Unicode standard's table).
+            $name, unwind = 8, {
+            set_limit(16);
+            let p: [u8; 3] = any_bytes();
+            let names = no_names();
+            string_case::<$l, $cut>(p, &names);
+            string_case::<$l, { $l + 1 }>(p, &names);
+            witness!(spec::utf8_valid(&p, $l) && ($l <= 1 || p[0] >= 0x80), "well-formed payload (non-ASCII where the length allows)");
+            leak(names);
+        });
     };
-    let got = run_dec(&schema, &names, data, len);
-    witness!(matches!(want, Some((_, 3))), "3-byte string");
-    match (got, want) {
-        (Some((v, used)), Some((off, l))) => {
-            match &v {
-                Value::String(s) => {
-                    assert!(s.len() == l, "string length differs");
-                    assert!(slice_eq(s.as_bytes(), &data[off..], l), "string bytes differ");
-                }
-                _ => assert!(false, "string schema decoded to another variant"),
-            }
-            assert!(used == off + l, "consumed != prefix + payload");
-            assert!(conforms(&v, &schema, &names), "decoded value does not validate");
-            leak(v);
-        }
-        (Some((v, _)), None) => {
-            leak(v);
-            assert!(false, "Ok for a byte string that is not a complete, well-formed string datum");
-        }
-        (None, Some(_)) => assert!(false, "complete string datum rejected"),
-        (None, None) => {}
-    }
-    leak(schema);
-    leak(names);
-});
+}
+string_harness!(string_1, 1, 1);
+string_harness!(string_2, 2, 2);
+string_harness!(string_3, 3, 3);
 
 harness!(
     /// fixed(size), size symbolic in 0..=4: exactly `size` raw bytes.
@@ -321,17 +339,21 @@ pub fn enum3() -> Schema {
 
 harness!(
     /// enum with 3 symbols: int index in range -> Enum(i, symbols[i]); everything else Err.
-    enum_, unwind = 12, {
-    let data: [u8; 10] = any_bytes();
+    enum_, unwind = 6, {
+    let d3: [u8; 3] = any_bytes();
     let len = any_usize();
-    assume(len <= 10);
+    assume(len <= 3);
     let names = no_names();
     let schema = enum3();
+    let mut data = [0u8; 10];
+    data[0] = d3[0];
+    data[1] = d3[1];
+    data[2] = d3[2];
     let want = match spec::dec_long(&data, len) {
         Some((w, used)) if w >= 0 && w < 3 => Some((w as u32, used)),
         _ => None,
     };
-    let got = run_dec(&schema, &names, data, len);
+    let got = run_dec(&schema, &names, d3, len);
     witness!(matches!(want, Some((2, _))), "last symbol");
     match (got, want) {
         (Some((v, used)), Some((idx, wused))) => {
@@ -362,11 +384,12 @@ pub const HARNESSES: &[(&str, fn())] = &[
     ("dec::null_bool", null_bool::body),
     ("dec::long_full", long_full::body),
     ("dec::int_full", int_full::body),
-    ("dec::long_kinds", long_kinds::body),
-    ("dec::int_kinds", int_kinds::body),
+    ("dec::logical_kinds", logical_kinds::body),
     ("dec::float_double", float_double::body),
     ("dec::bytes_", bytes_::body),
-    ("dec::string_", string_::body),
+    ("dec::string_1", string_1::body),
+    ("dec::string_2", string_2::body),
+    ("dec::string_3", string_3::body),
     ("dec::fixed_", fixed_::body),
     ("dec::enum_", enum_::body),
 ];
